@@ -1,6 +1,7 @@
 ---------------------------- MODULE Trace_AEConfine ----------------------------
 (* C06, confinement level: THE JUDGE.  One record per (document, hole, via):
-     {id, frags, hole, via, pt: {ctx, url, slot, kind, root}, outs: [{v, c, t, b, oc, out}, ...]}
+     {id, fmt, frags, hole, via, pt: {ctx, url, slot, kind, root}, outs: [{v, c, t, b, oc, out}, ...]}
+   (fmt = format of the template file: "HTML", "JS", "CSS", "JSON")
    outs[j].out is the document as REALLY rendered with dictionary value v (class c) shown at the hole,
    outs[outs[j].b].out the same document rendered with the benign value of the same Go type and shape
    ("x" for strings / Stringers / errors and for the leaves of slices, maps and structs; 1, -1, 1.5,
@@ -42,8 +43,8 @@ LcpAll(outs, a, j, m) == IF j > Len(outs) \/ m = 0 THEN m
 \*   ch = indices j whose output has another structure than their benign partner's,
 \*   un = number of benign entries whose own rendering is outside the reference
 Base(r) == LET oks == SelectSeq(r.outs, LAMBDA o : o.oc = "ok") IN
-           IF oks = <<>> THEN [p |-> 0, h |-> H0]
-           ELSE LET a == oks[1].out p == LcpAll(r.outs, a, 1, Len(a)) IN [p |-> p, h |-> HRunRange(H0, a, 1, p)]
+           IF oks = <<>> THEN [p |-> 0, h |-> HInit(r.fmt)]
+           ELSE LET a == oks[1].out p == LcpAll(r.outs, a, 1, Len(a)) IN [p |-> p, h |-> HRunRange(HInit(r.fmt), a, 1, p)]
 BenignSeq(r) == SelectSeq([j \in 1..Len(r.outs) |-> j], LAMBDA j : r.outs[j].b = j /\ r.outs[j].oc = "ok")
 RECURSIVE Judge(_, _, _, _, _)
 Judge(r, base, bs, i, acc) ==
@@ -58,7 +59,7 @@ Judge(r, base, bs, i, acc) ==
 Judged(r) == Judge(r, Base(r), BenignSeq(r), 1, [ch |-> {}, un |-> 0, cmp |-> 0])
 RecOk(r) == \A j \in Judged(r).ch : r.outs[j].t = 1
 
-Sig(r, j) == [fam |-> "autoescape", via |-> r.via, ctx |-> r.pt.ctx, url |-> r.pt.url, slot |-> r.pt.slot, kind |-> r.pt.kind,
+Sig(r, j) == [fam |-> "autoescape", fmt |-> r.fmt, via |-> r.via, ctx |-> r.pt.ctx, url |-> r.pt.url, slot |-> r.pt.slot, kind |-> r.pt.kind,
               root |-> r.pt.root, vclass |-> r.outs[j].c]
 
 RECURSIVE SetSeq(_)
